@@ -50,3 +50,19 @@ Theorem C13_fragment_sibling_offset : forall (t : ftree) (r : list ftree),
   spell_seq (t :: r) = spell t ++ match r with [] => [] | _ => SBlank :: spell_seq r end.
 Proof. intros t [|t2 r]; unfold spell_seq; cbn [map join_blank flat_map]; [rewrite app_nil_r|]; reflexivity. Qed.
 Print Assumptions C13_fragment_sibling_offset.
+
+(* on the outline lists of Spec/Outline.v (tight nested bullet lists, one item per line; any size and depth): every list,
+   item and title paragraph reports the line its marker line was written on - an item `osize x` lines after its
+   predecessor x (one line per node of x's subtree), a sub-list one line below its item *)
+From Mistletoe Require Import Proofs.IndentLaw Spec.Outline Proofs.OutlineP.
+Theorem C13_outline_line_numbers : forall b pad sub types f ns ln st k,
+  bullet_ok b -> (1 <= pad <= 4)%nat -> (sub <= 3)%nat -> list_first types = true -> In BK_Paragraph types ->
+  ns <> [] -> Forall (fun n => (odepth n <= f)%nat /\ owf n = true) ns -> (k <= 3)%nat ->
+  fst (fst (tokenize_block types (S f) (text_of (Outline.oforest b pad sub k ns)) ln st)) = [PList ln (Outline.oitems b pad sub k ln ns)].
+Proof. intros b pad sub types f ns ln st k Hb Hp Hs Hl Hpar Hne Hok Hk. rewrite (outline_tokenizes b pad sub Hb Hp Hs types Hl Hpar f ns ln st Hne Hok k Hk). reflexivity. Qed.
+Print Assumptions C13_outline_line_numbers.
+
+Theorem C13_outline_one_line_per_node : forall b pad sub f n k, (1 <= pad <= 4)%nat -> (sub <= 3)%nat -> (odepth n <= f)%nat ->
+  length (Outline.olines b pad sub k n) = osize n.
+Proof. intros b pad sub f n k Hp Hs Hd. exact (olines_length b pad sub Hp Hs f n k Hd). Qed.
+Print Assumptions C13_outline_one_line_per_node.
